@@ -81,19 +81,19 @@ MIN_COUNTERS = {
                  'names_longer_than_200': 500},
 }
 
-KINDS = {'plain': 1500, 'mc': 1500, 'wf': 1500, 'variants': 1000, 'big': 160,
-         'invalid': 1000}
+KINDS = {'plain': 7000, 'mc': 7000, 'wf': 7000, 'variants': 4500, 'big': 720,
+         'invalid': 4500}       # quick tier sizes (cases); also capped in seconds
 
 
 def plan(tier, seed):
-    mult = 1 if tier == 'quick' else 60
-    secs = 45 if tier == 'quick' else 620
+    mult = 1 if tier == 'quick' else 13
+    secs = 40 if tier == 'quick' else 620
     shards = []
     for kind, n in KINDS.items():
         parts = {'big': 4}.get(kind, 2) if tier == 'quick' else \
             {'big': 6, 'invalid': 1}.get(kind, 2)
         if tier == 'thorough' and kind == 'big':
-            n = n * 25 // 60 * 2          # ~8000 big programs
+            n = 600                       # x13 = 7800 big programs
         for p, (f, c) in enumerate(split(n * mult, parts)):
             shards.append({'name': f'{kind}{p}', 'mode': 'nrt', 'kind': kind,
                            'first_case': f, 'n': c, 'secs': secs,
